@@ -484,6 +484,11 @@ def obligations(tier):
             return out
         add("decomposition._cmtf_als:coupled_matrix_tensor_3d_factorization", f"normalize_factors={normalize}", cm_setup, cm_call, cm_post, dict(normalize_factors=normalize),
             "least-squares sites ≡ block problems of the reported objective")
+    # ====================================================================== bounded stand-in (never counted as proved): end-to-end native survey - the real
+    # entry points, unstubbed, on seeded tensors; a cross-check of the composed contracts on what they assume away (degenerate data, option combinations)
+    from .c09 import BoundedOb
+    from . import e2e_native
+    obs.append(BoundedOb(f"{PID}/bounded/native survey: reported errors of the exact block-coordinate algorithms never rise", "tensorly.decomposition:parafac+tucker+non_negative_parafac_hals", lambda: e2e_native.c06_c07(tier, "C07"), dict(orders="2-3 (4 thorough)", data="generic, non-negative, integer, exactly low-rank", budgets="2, 8"), "seed 0; slack 1e-6 (errors are square roots of differences)", pid=PID))
     return obs
 
 
